@@ -63,6 +63,8 @@ var divTable = map[string]tabEntry{
 }
 
 var nilTable = map[string]tabEntry{
+	"gqlerrors.(ErrorList).Error/element of a ErrorList (a list type decoded from JSON)": {1,
+		"ErrorList.Error() runs only when some code asks an error for its text (ToGqlError, NewError); rule R6s.path shows that a list answered by a service is only returned, joined by ExtendErrorList or formatted by FormatError on its way to the client — it is never asked for its text, so a `null` entry of a service's `errors` array is not dereferenced here (it reaches the client as null; checked: {\"errors\":[null]} yields errors:[null], no panic)"},
 	"executor.(*DepthExecutorManager).Execute/map lookup depthExecutors[…] without comma-ok": {1,
 		"the loop runs depth 0..maxDepth; walkPlanStep records depth d+1 only below a step of depth d, so every depth up to the maximum key has an executor (depth 0 is tested explicitly since the fix for the empty plan)"},
 	"introspection.(*IntrospectionResolver).ResolveIntrospectionFields/result of ast.ArgumentList).ForName (nil when absent)": {1,
